@@ -451,8 +451,8 @@ fn run_abandoned(rep: &mut Report, rng: &mut Rng, n: usize) {
 }
 
 pub fn run(ctx: Ctx) -> Report {
-    let n = ctx.tier.pick(6400, 160_000);
-    let n_mux = ctx.tier.pick(480, 16_000);
+    let n = ctx.tier.pick(6400, 480_000);
+    let n_mux = ctx.tier.pick(480, 32_000);
     run::run_sharded("C02", ctx.shards, move |shard, nshards, rep| {
         let mut rng = Rng::new(ctx.seed.wrapping_mul(211).wrapping_add(shard as u64) ^ 0xC02);
         // (1) hostile-frame scripts, random
